@@ -1,4 +1,12 @@
 // L4: signed integers (src/int.rs, src/int/{add,sub,neg,sign,cmp,resize,from,mul,mul_uint}.rs) -- C13
+// View: Int::iv() (speclib) == iv_of(self.0.v(), LIMBS). MIN = -ih(LIMBS), MAX = ih(LIMBS) - 1, wrap_i = "mod W, two's complement".
+// Also hosts Uint/NonZero helpers that no other unit has: Uint::as_int, Uint::bitxor, NonZero<Uint>::new_unwrap,
+// NonZero<Int>::abs_sign, `impl Deref for NonZero<T>`.
+// Not covered (outside what Verus accepts here): trait impls returning subtle::CtOption or using closures
+// (CheckedAdd/CheckedSub/CheckedMul for Int, checked_mul_uint_right, WrappingAdd/WrappingSub, operators, Checked/Wrapping<Int>,
+// ConditionallySelectable, ConstantTimeEq/Greater/Less, Ord/PartialOrd/PartialEq), the ConcatMixed-bounded
+// widening_mul / widening_mul_uint / widening_square, from_i128 (needs the I128 alias and Uint::from_u128),
+// as_words / as_words_mut (unsafe pointer casts), as_limbs_mut (&mut return), Int::BYTES (Uint::BYTES is in no unit).
 use vstd::prelude::*;
 use vstd::arithmetic::power::*;
 use vstd::arithmetic::power2::*;
